@@ -171,6 +171,11 @@ Definition tr_rem_entry (e : tr_entry) (ms : Z) : tr_entry :=
 
 Definition tr_hash_B : N := Consts.prefix_hash_step.
 
+(* resume: the prefix digests compared do not collide - the premise of C08_identical, for a source
+   content and the content it meets at the destination *)
+Definition tr_no_collision (hx : list byte -> Resume.digest) (src old : list byte) : Prop :=
+  forall k, hx (firstn k src) = hx (firstn k old) -> firstn k src = firstn k old.
+
 Section Transfer.
 Variable digest : Type.
 Variable H : list byte -> digest.
@@ -788,6 +793,20 @@ Fixpoint tr_spec (c : tr_cfg) (dest : path) (items : list (tr_entry * tr_sched))
     end
   end.
 
+(* the premise about the prefix digests, along the run: for every entry, the non-empty file it meets
+   at its place (if it meets one) - exactly the contents whose prefixes the resume exchange compares *)
+Definition tr_coll_ok (c : tr_cfg) (dest : path) (e : tr_entry) (st : state) : Prop :=
+  forall ln st1, tr_create c dest (tr_payload c e) [] st = (NOk ln, st1) ->
+    tr_old_content st1 (tr_leaf dest ln (tr_payload c e)) <> [] ->
+    tr_no_collision hx (te_data e) (tr_old_content st1 (tr_leaf dest ln (tr_payload c e))).
+Fixpoint tr_resume_safe (c : tr_cfg) (dest : path) (items : list (tr_entry * tr_sched)) (st : state) : Prop :=
+  match items with
+  | [] => True
+  | (e, sc) :: r =>
+    tr_coll_ok c dest e st /\
+    match tr_spec_entry c dest e sc st with Some (_, st') => tr_resume_safe c dest r st' | None => True end
+  end.
+
 (* ---- the number of messages of a fault-free transfer = the fuel that suffices.  In the resume
    exchange it depends on what is at the destination, so it is computed along the specification ---- *)
 (* SIZE, echo, [COMP], frames, finish flag, acks, final acks, MD5, digest reply *)
@@ -965,10 +984,6 @@ Definition tr_hdrs_ok (ahdr : src -> Z -> list byte) (aparse : list byte -> opti
 (* the contents are bytes: of the items and of their SubFiles *)
 Definition tr_bytes_ok (items : list (tr_entry * tr_sched)) : Prop :=
   Forall (fun es => Forall (fun m => bytes_ok (te_data m) = true) (tr_members (fst es))) items.
-(* resume: the prefix digests compared do not collide - the premise of C08_identical, for a source
-   content and the content it meets at the destination *)
-Definition tr_no_collision (hx : list byte -> Resume.digest) (src old : list byte) : Prop :=
-  forall k, hx (firstn k src) = hx (firstn k old) -> firstn k src = firstn k old.
 
 (* ---- a sufficient condition on the inputs for the receiver to accept every entry ---- *)
 Definition tr_len_ok (n : name) : Prop := (name_max <? name_len n) = false.           (* at most NAME_MAX bytes *)
